@@ -117,6 +117,8 @@ pub fn run(ctx: &Ctx) -> i32 {
             },
         },
         Part { name: "ES-F macro shapes", family: gen::es_f(ctx.tier.pick(2, 3)), cfgs: gen::cfgs(&[ALL_MODES, 1, common::NO_ASCII, 0], &[d], &both, &both) },
+        Part { name: "ES-F2 macro token sequences", family: gen::es_f_tokens(ctx.tier.pick(4, 5)), cfgs: gen::cfgs(&[ALL_MODES, common::NO_ASCII], &[d, ListMask(0), sq(10, 10)], &both, &both) },
+        Part { name: "ES-I multi-run inputs", family: gen::es_i(ctx.tier.pick(14, 24), ctx.tier.pick(5, 7)), cfgs: gen::cfgs(&[ALL_MODES, common::NO_ASCII, 0x12, 0x14, 0x18, 0x06, 0x30], &[d], &on, &off) },
     ];
     let _ = Flavor::Totality;
     // one- and two-symbol lists on a core set of strings
